@@ -192,7 +192,8 @@ func cmdSigs(args []string) int {
 			for i := 0; i < n; i++ {
 				a := fx.Accounts[perm[i]]
 				att.Addrs = append(att.Addrs, g.addrFor(a))
-				att.Atts = append(att.Atts, AttData{Dom: mkDomain(domAttester, byte(i)), Slot: uint64(i) * 3, Idx: uint64(i), BBR: rng.Bytes(32),
+				// validators of one committee share slot and committee index; most vote alike, some split
+				att.Atts = append(att.Atts, AttData{Dom: mkDomain(domAttester, byte(i)), Slot: uint64(i/4) * 3, Idx: uint64(i / 4), BBR: rng.Bytes(32),
 					Src: &Checkpoint{uint64(i % 3), rng.Bytes(32)}, Tgt: &Checkpoint{uint64(i%3) + 1 + uint64(i%2), rng.Bytes(32)}})
 				multi.Addrs = append(multi.Addrs, g.addrFor(a))
 				multi.Signs = append(multi.Signs, SignData{Dom: mkDomain(domRandao, byte(i)), Data: rng.Bytes(32)})
